@@ -239,16 +239,17 @@ def queries(tier):
     # (b) templates: values on both sides of the boundary are solver variables
     def hq(qid, steps, accepted, timeout=600):
         # edits are the subject here: the tracked variables are pinned (their values are the subject of pkg.value.*)
-        fixed = {"V": [1, 1], "U": [2, 2], "W": [3, 3], "D": [4, 4]}
+        fixed = {"V": [1, 1], "U": [2, 2], "W": [3, 3], "D": [4, 4], "F": [5, 5]}
         qs.append({"id": qid, "fn": "hist", "sel": {"template": "T14", "steps": steps, "leaf_type": {}, "nargs": False, "store": "memory", "fixed": fixed, "accepted": accepted}, "timeout": timeout})
 
     def hv(qid, var, accepted):
-        fixed = dict((v, [0, 0]) for v in ("V", "U", "W", "D") if v != var)
+        fixed = dict((v, [0, 0]) for v in ("V", "U", "W", "D", "F") if v != var)
         qs.append({"id": qid, "fn": "hist", "sel": {"template": "T14", "steps": [{}, {}], "leaf_type": {}, "nargs": False, "store": "memory", "fixed": fixed, "accepted": accepted}, "timeout": 600})
 
     acc = ["tq2", "ta.inner", "tq"]
     hv("pkg.value.V", "V", acc)  # read by a function called by its fully qualified name through the non-accepted parent package ta
     hv("pkg.value.U", "U", acc)  # read by a function called through `from ta.inner import leaf as lf`
+    hv("pkg.value.F", "F", acc)  # read by a function of an accepted module that is only reached through the re-export of a non-accepted module
     hv("pkg.value.D", "D", acc)  # variable three package levels below the accepted prefix
     hv("pkg.value.W", "W", acc)  # variable of tq2, accepted BEFORE tq (a name that extends it)
     hv("pkg.value.W.rev", "W", ["tq", "ta.inner", "tq2"])
